@@ -217,6 +217,59 @@ fn deep_note(t: &Tuple, d: &Document) -> String {
     }
 }
 
+/// For the documents of long strings: which strings differ (the values themselves would fill pages).
+fn sized_note(t: &Tuple, d: &Document, m: &str) -> String {
+    fn fmt(f: &lopdf::StringFormat) -> &'static str {
+        match f {
+            lopdf::StringFormat::Literal => "literal",
+            lopdf::StringFormat::Hexadecimal => "hexadecimal",
+        }
+    }
+    fn go(a: &Object, b: &Object, path: &mut String, out: &mut Vec<String>) {
+        let keep = path.len();
+        match (a, b) {
+            (Object::String(x, fx), Object::String(y, fy)) if x != y => out.push(format!(
+                "{}: a {} string of {} bytes in the plaintext document, here a {} string of {} bytes{}",
+                path,
+                fmt(fx),
+                x.len(),
+                fmt(fy),
+                y.len(),
+                if x.len() == y.len() { format!(" ({} of them differ)", x.iter().zip(y.iter()).filter(|(p, q)| p != q).count()) } else { String::new() }
+            )),
+            (Object::Array(x), Object::Array(y)) => {
+                for (i, (p, q)) in x.iter().zip(y.iter()).enumerate() {
+                    path.push_str(&format!("[{}]", i));
+                    go(p, q, path, out);
+                    path.truncate(keep);
+                }
+            }
+            (Object::Dictionary(x), Object::Dictionary(y)) => {
+                for (k, p) in x.iter() {
+                    if let Ok(q) = y.get(k) {
+                        path.push('/');
+                        path.push_str(&String::from_utf8_lossy(k));
+                        go(p, q, path, out);
+                        path.truncate(keep);
+                    }
+                }
+            }
+            _ => {}
+        }
+    }
+    let mut out = vec![];
+    for (id, p) in &t.plain.objects {
+        if let Some(o) = d.objects.get(id) {
+            go(p, o, &mut format!("obj({} {})", id.0, id.1), &mut out);
+        }
+    }
+    if out.is_empty() {
+        vharness::run::truncate(m, 300)
+    } else {
+        format!("{} string(s) are not restored: {}", out.len(), out.iter().take(3).cloned().collect::<Vec<_>>().join("; "))
+    }
+}
+
 fn short_path(p: &str) -> String {
     if p.len() <= 140 {
         p.to_string()
@@ -230,7 +283,15 @@ fn diff_plain(t: &Tuple, d: &Document) -> Option<String> {
     if d.trailer.has(b"Encrypt") {
         return Some("trailer still has /Encrypt".into());
     }
-    diff_docs_sym(&t.plain, d).map(|m| if t.kind.is_deep() { format!("{}{}", deep_note(t, d), vharness::run::truncate(&m, 100)) } else { m })
+    diff_docs_sym(&t.plain, d).map(|m| {
+        if t.kind.is_deep() {
+            format!("{}{}", deep_note(t, d), vharness::run::truncate(&m, 100))
+        } else if is_sized(t.kind) {
+            sized_note(t, d, &m)
+        } else {
+            m
+        }
+    })
 }
 
 fn outcome_kind<T>(r: &Result<Result<T, lopdf::Error>, String>) -> String {
@@ -1021,7 +1082,42 @@ fn all_pairs() -> Vec<(&'static str, String, String)> {
     let mut v = menu::password_pairs();
     v.extend(menu::straddling_pairs());
     v.extend(menu::long_nonlatin_pairs());
+    v.extend(menu::pdfdoc_special_pairs());
     v
+}
+
+/// index range (in `all_pairs`) of the long passwords for revisions 5 and 6
+fn long_pair_range() -> std::ops::Range<usize> {
+    let first = menu::password_pairs().len();
+    first..first + menu::straddling_pairs().len() + menu::long_nonlatin_pairs().len()
+}
+
+/// What is left of a password when every character outside printable ASCII is dropped - offered as a WRONG password in
+/// the PDFDocEncoding family (None when that is the user or the owner password under the standard's equivalence).
+fn stripped_wrong(r: i64, pw: &str, user: &str, owner: &str) -> Option<String> {
+    let s: String = pw.chars().filter(|c| (' '..='~').contains(c)).collect();
+    if same_pw(r, &s, user) || same_pw(r, &s, owner) {
+        None
+    } else {
+        Some(s)
+    }
+}
+
+fn count_strings(d: &Document) -> u64 {
+    fn go(o: &Object) -> u64 {
+        match o {
+            Object::String(..) => 1,
+            Object::Array(a) => a.iter().map(go).sum(),
+            Object::Dictionary(d) => d.iter().map(|(_, x)| go(x)).sum(),
+            Object::Stream(s) => s.dict.iter().map(|(_, x)| go(x)).sum(),
+            _ => 0,
+        }
+    }
+    d.objects.values().map(go).sum()
+}
+
+fn is_sized(kind: DocKind) -> bool {
+    matches!(kind, DocKind::BigStrings | DocKind::HugeStrings)
 }
 
 fn specs(run: &Run, depths: Depths) -> (Vec<Spec>, u64) {
@@ -1152,12 +1248,63 @@ fn specs(run: &Run, depths: Depths) -> (Vec<Spec>, u64) {
     let everything = all_pairs();
     let r6_quick = ["long_cyrillic", "long_cjk", "mixed_scripts", "prep_shrinks_below_127", "cut127_3byte", "short_user_long_owner"];
     for (ci, cfg) in configs.iter().filter(|c| c.revision() >= 5 && c.em && c.stm == F::Aes256 && c.strf == F::Aes256).enumerate() {
-        for (pi, pair) in everything.iter().enumerate().skip(pairs.len()) {
+        for (pi, pair) in everything.iter().enumerate().skip(long_pair_range().start).take(long_pair_range().len()) {
             if cfg.revision() == 6 && !run.thorough && !r6_quick.contains(&pair.0) {
                 continue;
             }
             out.push(Spec { kind: DocKind::Page, cfg: cfg.clone(), pair: pi, perms: all, table: (ci + pi) % 2 == 0, id_shape: IdShape::Hex, depth: 0 });
         }
+    }
+    // --- string size / format / content family: strings of 2^e - 1, 2^e, 2^e + 1 bytes (e = 7..12) x {literal, hexadecimal}
+    // x {printable, mixed, all-binary, escape-heavy}, each as an entry of an ordinary dictionary / array AND as the Contents
+    // of a signature dictionary, x one configuration per key-derivation variant x password pairs x BOTH cross-reference
+    // formats; and the same axes at 2^16 +- 1 (twelve strings) with fewer configurations
+    use vharness::refcrypt::menu::Ver;
+    let first3 = |name: &str| matches!(name, "distinct" | "empty_user");
+    let mut sized: Vec<Spec> = vec![];
+    for (ci, cfg) in id_family_configs().iter().enumerate() {
+        let r6 = cfg.revision() == 6;
+        // quick: one configuration per cipher the strings can meet - RC4 (V2, 128-bit), AES-128 (V4), AES-256 (revision 5, whose
+        // string and stream code is that of revision 6 with a cheap password hash; revision 6 with one password pair)
+        let cipher_cfg = cfg.em && (matches!(cfg.ver, Ver::V2(128) | Ver::R5 | Ver::V5) || (cfg.ver == Ver::V4 && cfg.strf == F::Aes128));
+        for (pi, pair) in pairs.iter().enumerate() {
+            let in_quick = cipher_cfg && (pair.0 == "distinct" || (pair.0 == "empty_user" && !r6));
+            if !(in_quick || (run.thorough && (!r6 || quick3(pair.0)))) {
+                continue;
+            }
+            for table in [true, false] {
+                // both cross-reference formats with two distinct passwords (the reloaded document is still encrypted); quick: one
+                // format, alternating, where the loader itself decrypts (empty user password)
+                if !run.thorough && pair.0 != "distinct" && table != ((ci + pi) % 2 == 0) {
+                    continue;
+                }
+                sized.push(Spec { kind: DocKind::BigStrings, cfg: cfg.clone(), pair: pi, perms: all, table, id_shape: IdShape::Hex, depth: 0 });
+            }
+            let huge_quick = cipher_cfg && cfg.ver != Ver::R5 && pair.0 == "distinct";
+            if huge_quick || (run.thorough && first3(pair.0) && (cfg.em || !r6)) {
+                sized.push(Spec { kind: DocKind::HugeStrings, cfg: cfg.clone(), pair: pi, perms: all, table: (ci + pi) % 2 == 0, id_shape: IdShape::Hex, depth: 0 });
+            }
+        }
+    }
+    // --- PDFDocEncoding family (revisions 2-4): passwords with the characters PDFDocEncoding places at 0x18-0x1F, 0x80-0x9E,
+    // 0xA0 and the control characters - inside ASCII words, passwords made of nothing else, on either side of the 32-byte
+    // cut; the WRONG passwords offered are the same passwords without those characters
+    let special_first = long_pair_range().end;
+    for (ci, cfg) in id_family_configs().iter().filter(|c| c.revision() <= 4 && (c.em || run.thorough)).enumerate() {
+        for pi in special_first..everything.len() {
+            for table in [true, false] {
+                if !run.thorough && table != ((ci + pi) % 2 == 0) {
+                    continue;
+                }
+                out.push(Spec { kind: DocKind::Page, cfg: cfg.clone(), pair: pi, perms: all, table, id_shape: IdShape::Hex, depth: 0 });
+            }
+        }
+    }
+    // the tuples of the long-string documents cost seconds each: they are spread evenly over the list (the order of the list
+    // only decides which worker thread meets which tuple)
+    let step = (out.len() / sized.len().max(1)).max(1);
+    for (k, spec) in sized.into_iter().enumerate() {
+        out.insert((k * (step + 1)).min(out.len()), spec);
     }
     (out, rest)
 }
@@ -1166,12 +1313,13 @@ fn build_tuple(s: &Spec, thorough: bool) -> Tuple {
     let pairs = all_pairs();
     let (name, user, owner) = pairs[s.pair].clone();
     let r = s.cfg.revision();
+    let special = name.starts_with("pdfdoc_");
     Tuple {
         kind: s.kind,
         cfg: s.cfg.clone(),
         pair: name.to_string(),
-        wrong1: make_wrong1(r, &user, &owner),
-        wrong2: WRONG2.to_string(),
+        wrong1: special.then(|| stripped_wrong(r, &user, &user, &owner)).flatten().unwrap_or_else(|| make_wrong1(r, &user, &owner)),
+        wrong2: special.then(|| stripped_wrong(r, &owner, &user, &owner)).flatten().unwrap_or_else(|| WRONG2.to_string()),
         user,
         owner,
         perms: s.perms,
@@ -1208,7 +1356,7 @@ fn main() {
          plus the extra-crypt-filter family: configurations whose CF dictionary holds MORE crypt filters than StmF / StrF name (one extra filter per CFM of the version, names sorting before / between / after the default ones; V4 x {RC4,AES-128,Identity}^2, revision 5 and V5 x {AES-256,Identity}^2, incl. StmF = StrF = /Identity where a stream can only opt in) x documents whose streams carry Crypt overrides naming EVERY CF entry, /Identity, no name, and unusable names (undefined, other case, a string, an array, null), each in the dictionary form, the one-element array form and the array form next to a second filter; after every encrypt the written encryption dictionary is read by the reference handler's parser and must define every named filter; \
          plus the key-name family: strings of 16..33 bytes in literal AND hexadecimal format under 34 key names that look special (Contents, ID, O, U, OE, UE, Perms, Cert, Filter, Encrypt, CF, ...) in ordinary dictionaries - top-level, nested, in arrays, in stream dictionaries, in dictionaries typed /XRef, /ObjStm, /Encrypt and one shaped like an encryption dictionary - which must all be encrypted; real signature dictionaries (/Type /Sig or /DocTimeStamp + /ByteRange + hexadecimal /Contents) and doubtful ones, whose Contents must come back but may or may not be encrypted (ISO 32000-2 7.6.2); \
          plus the long-password family (revisions 5, 6): 14 pairs of passwords of 126..180 UTF-8 bytes - all-Cyrillic, all-CJK, all 4-byte, mixed, a 2-/3-/4-byte character across byte 127, the cut exactly on a boundary, only the user or only the owner password long, SASLprep shrinking the password below / expanding it beyond 127 bytes; on every encrypted state authenticate_user_password / authenticate_owner_password / authenticate_password must accept the passwords; \
-         plus the file-identifier family: the trailer's /ID as literal strings, with an empty first string, with one element, absent, an empty array, with an integer or a name as first element, a string instead of an array x one configuration per key-derivation variant x 9 password pairs (revisions 5/6 never use the identifier: everything must work; revisions <= 4 without a first string: lopdf may refuse to build the state); a tuple is non-trivial \
+         plus the string size / format / content family: strings of 2^e - 1, 2^e, 2^e + 1 bytes for e = 7..12 (and, in a second document, 2^16 - 1, 2^16, 2^16 + 1) x {literal, hexadecimal} format x {printable text, text and arbitrary bytes mixed, no printable byte at all, nothing but backslashes / unbalanced parentheses / CR / LF ending in a backslash (to 1025 bytes)}, each as an entry of an ORDINARY dictionary (one of them under the key Contents) or array AND as the Contents of a signature dictionary (/Type /Sig or /DocTimeStamp + /ByteRange; an indirect object, the direct value of a field, an array element), plus signature Contents of 0, 1, 15..33 bytes in both formats x RC4-128, AES-128, AES-256 x two password pairs x BOTH cross-reference formats: every string, whatever its format in the plaintext document, must be restored byte for byte by the in-memory round trip and after save_to + load_mem (a LITERAL-format Contents of a signature dictionary is not covered by the exemption of ISO 32000-2 7.6.2, which speaks of the hexadecimal string: it may be encrypted or left alone, but it must come back; the FORMAT a string has after reloading is not compared);          plus the PDFDocEncoding password family (revisions 2-4): 10 password pairs with the characters PDFDocEncoding places at 0x18-0x1F (spacing accents), 0x80-0x9E, 0xA0 and TAB/LF/CR - inside ASCII words, passwords consisting of nothing else, only the user or only the owner password affected, such a character as the 32nd / 33rd byte - where the wrong passwords offered are the same passwords WITHOUT those characters (the per-cell sweep against the reference's own table is C06's);          plus the file-identifier family: the trailer's /ID as literal strings, with an empty first string, with one element, absent, an empty array, with an integer or a name as first element, a string instead of an array x one configuration per key-derivation variant x 9 password pairs (revisions 5/6 never use the identifier: everything must work; revisions <= 4 without a first string: lopdf may refuse to build the state); a tuple is non-trivial \
          when an encrypted state was reached; states = distinct (tuple, abstract state) pairs reached; a trace is a path whose last transition \
          satisfied every invariant",
     );
@@ -1277,7 +1425,7 @@ fn main() {
         "documents",
         json!(main_kinds()
             .iter()
-            .chain([DocKind::DeepLoadable, DocKind::DeepMemory, DocKind::CryptNamed, DocKind::CryptUndefined, DocKind::KeyNames, DocKind::SigDict, DocKind::SigAmbiguous].iter())
+            .chain([DocKind::DeepLoadable, DocKind::DeepMemory, DocKind::CryptNamed, DocKind::CryptUndefined, DocKind::KeyNames, DocKind::SigDict, DocKind::SigAmbiguous, DocKind::BigStrings, DocKind::HugeStrings].iter())
             .map(|d| d.name())
             .collect::<Vec<_>>()),
     );
@@ -1292,7 +1440,19 @@ fn main() {
     run.set("configurations_with_more_crypt_filters_than_stmf_strf_name", json!(menu::configs_extra_cf().iter().map(|c| c.to_json()).collect::<Vec<_>>()));
     run.set("start_tuples_key_name_family", json!(fam(&|s| key_kinds.contains(&s.kind))));
     run.set("key_names_carrying_strings", json!(menu::KEY_MENU.to_vec()));
-    run.set("start_tuples_long_password_family", json!(fam(&|s| s.pair >= menu::password_pairs().len())));
+    run.set("start_tuples_long_password_family", json!(fam(&|s| long_pair_range().contains(&s.pair))));
+    run.set("start_tuples_pdfdoc_password_family", json!(fam(&|s| s.pair >= long_pair_range().end)));
+    run.set("pdfdoc_password_pairs", json!(menu::pdfdoc_special_pairs().iter().map(|p| json!([p.0, p.1, p.2])).collect::<Vec<_>>()));
+    run.set("start_tuples_string_size_family", json!(fam(&|s| s.kind == DocKind::BigStrings)));
+    run.set("start_tuples_string_size_family_64k", json!(fam(&|s| s.kind == DocKind::HugeStrings)));
+    run.set(
+        "string_size_family",
+        json!({"lengths": menu::BIG_LENS.to_vec(), "lengths_64k_document": menu::HUGE_LENS.to_vec(), "formats": ["literal", "hexadecimal"],
+               "contents": [menu::Fill::Printable.name(), menu::Fill::Mixed.name(), menu::Fill::Binary.name(), menu::Fill::Tricky.name()],
+               "placements": ["entry of an ordinary dictionary", "array element", "Contents of a signature dictionary (indirect)", "Contents of a signature dictionary that is the direct value of a field", "Contents of a signature dictionary inside an array"],
+               "strings_in_the_document": count_strings(&menu::build_doc(DocKind::BigStrings, &menu::configs()[0], &menu::id_of_len(16), false)),
+               "strings_in_the_64k_document": count_strings(&menu::build_doc(DocKind::HugeStrings, &menu::configs()[0], &menu::id_of_len(16), false))}),
+    );
     run.set(
         "long_password_pairs_utf8_bytes_user_owner",
         json!(all_pairs().iter().skip(menu::password_pairs().len()).map(|p| json!([p.0, utf8_prep_full(&p.1).map(|b| b.len()).unwrap_or(0), utf8_prep_full(&p.2).map(|b| b.len()).unwrap_or(0)])).collect::<Vec<_>>()),
@@ -1300,7 +1460,7 @@ fn main() {
     run.set("password_pairs", json!(menu::password_pairs().iter().map(|p| p.0).collect::<Vec<_>>()));
     run.set("depth", json!(DEPTH));
     if !run.thorough {
-        run.set("quick_slice", json!(format!("all tuples with permissions=all and one cross-reference format (revision 6: every third document per configuration and password pair), plus every 97th (offset seed mod 97) of the {} remaining tuples of the thorough product; the two newer Crypt-parameter documents with three password pairs; deep-nesting family: both ladder documents x one configuration per (version, stream method, string method) x the password pairs 'distinct' and 'empty_user'; file-identifier family: page document x 8 shapes x 11 configurations x 9 password pairs (revision 6: EncryptMetadata true, three pairs); revision 6: a document re-protected with the kept state is judged but not expanded", rest)));
+        run.set("quick_slice", json!(format!("all tuples with permissions=all and one cross-reference format (revision 6: every third document per configuration and password pair), plus every 97th (offset seed mod 97) of the {} remaining tuples of the thorough product; the two newer Crypt-parameter documents with three password pairs; deep-nesting family: both ladder documents x one configuration per (version, stream method, string method) x the password pairs 'distinct' and 'empty_user'; string size family: RC4-128, AES-128, revision 5 x (two distinct passwords x both cross-reference formats, empty user password x one format), revision 6 with two distinct passwords, the 64 KiB document with RC4-128, AES-128 and revision 6; PDFDocEncoding password family: one cross-reference format per tuple, EncryptMetadata true; file-identifier family: page document x 8 shapes x 11 configurations x 9 password pairs (revision 6: EncryptMetadata true, three pairs); revision 6: a document re-protected with the kept state is judged but not expanded", rest)));
     }
     run.exhaustive(true);
     run.finish();
